@@ -1,7 +1,7 @@
 (* C03 (phase 1): one-step theorems about the requests of the bring-up, over ALL peripheral states.
    The history theorem C03_order (monitor DpOracle.c03_monitor accepts every history of the model) is
    proved in a later phase on top of these. *)
-From PB Require Import Peripheral DpStepProofs.
+From PB Require Import Peripheral DpStepProofs WatchdogProofs.
 
 (* Set_Prm is byte for byte: Lock_Req|Sync|Freeze|WD_On, WD factors, min Tsdr, ident hi/lo, groups, user
    parameters; to DSAP 61 from SSAP 62, SRD low, with the current frame count bit *)
@@ -47,6 +47,17 @@ Theorem C03_dx_only_in_data_exchange : forall pa op p p' h pdu,
   pdu = (if opstate_eqb op OpOperate then pe_pi_q p else repeat 0 (length (pe_pi_q p))).
 Proof. exact dx_request_only_when_ready. Qed.
 Print Assumptions C03_dx_only_in_data_exchange.
+
+(* for every watchdog time the builder admits (10 ms .. 650 s, in ms) the factor search succeeds (so the
+   builder's unwrap cannot fail) with 1 <= f1, f2 <= 255, f1 * f2 * 10 ms >= floor(ms/10) * 10 ms (the request is
+   truncated to 10 ms, observation O3), and f1 is the smallest first factor that works *)
+Theorem C03_watchdog_factors : forall ms,
+  10 <= ms <= 650000 ->
+  exists f1 f2, watchdog_factors (ms * 1000) = Some (Some (f1, f2)) /\
+    1 <= f1 <= 255 /\ 1 <= f2 <= 255 /\ ms / 10 <= f1 * f2 /\
+    (forall g, 1 <= g < f1 -> 256 <= (ms / 10 + g - 1) / g).
+Proof. exact watchdog_factors_spec. Qed.
+Print Assumptions C03_watchdog_factors.
 
 (* non-vacuity: a peripheral waiting for parameters with a watchdog configured *)
 Example C03_set_prm_example :
